@@ -3,7 +3,8 @@
  *   names starting with "nullmx." : RfC 7505 null MX
  *   names starting with "tempdns.": temporary resolver failure
  *   any other name                : MX 10 mx.example.net, A 192.0.2.25, no AAAA
- *   TXT: none (SPF result none) unless FAKEDNS_TXT is set (then that text for every name)
+ *   TXT: SPF records for a few sender / HELO domains (zone_txt: fail, pass, softfail, neutral), none for all others;
+ *        FAKEDNS_TXT, if set, is the text for every name
  *   PTR: none
  */
 #include <errno.h>
@@ -47,10 +48,26 @@ int dnsmx(char **out, size_t *len, const char *host)
 	*len = sizeof(mx);
 	return 0;
 }
+/* SPF records of the sender / HELO domains the generators use (the same table is in ocaml/session_driver.ml: fakedns_txt) */
+#include <strings.h>
+static const char *zone_txt(const char *host)
+{
+	static const struct { const char *name, *txt; } z[] = {
+		{ "example.com", "v=spf1 -all" },
+		{ "example.org", "v=spf1 ip4:192.0.2.0/24 ip6:2001:db8::/32 -all" },
+		{ "shop.example.net", "v=spf1 ~all" },
+		{ "x.example.com", "v=spf1 ?all" },
+		{ "again.example.net", "v=spf1 ip4:198.51.100.0/24 ip6:2001:db8:ffff::/48 ~all" },
+	};
+	const char *t = getenv("FAKEDNS_TXT");
+	if (t) return t;
+	for (unsigned i = 0; i < sizeof(z) / sizeof(z[0]); i++)
+		if (!strcasecmp(host, z[i].name)) return z[i].txt;
+	return NULL;
+}
 int dnstxt(char **out, const char *host)
 {
-	const char *t = getenv("FAKEDNS_TXT");
-	(void)host;
+	const char *t = zone_txt(host);
 	*out = NULL;
 	if (!t) return 0;
 	*out = strdup(t);
@@ -58,8 +75,7 @@ int dnstxt(char **out, const char *host)
 }
 int dnstxt_records(char **out, const char *host)
 {
-	const char *t = getenv("FAKEDNS_TXT");
-	(void)host;
+	const char *t = zone_txt(host);
 	*out = NULL;
 	if (!t) return 0;
 	size_t l = strlen(t);
